@@ -91,10 +91,10 @@ def _sizes(lo, hi):
     return [(n, m) for n in range(lo, hi + 1) for m in range(lo, hi + 1)]
 
 
-_SNAKE_QUICK = ['snake_basic_%d_%d' % p for p in _sizes(1, 3)] + ['snake_bigv_2_2', 'snake_stale_2_2']
+_SNAKE_QUICK = ['snake_basic_%d_%d' % p for p in _sizes(1, 3)] + ['snake_bigv_2_2']
 _SNAKE_THOROUGH = (['snake_full_%d_%d' % p for p in _sizes(1, 4)]
                    + ['snake_basic_5_5', 'snake_basic_2_5', 'snake_basic_5_2',
-                      'snake_bigv_3_2', 'snake_stale_3_3'])
+                      'snake_bigv_3_2', 'snake_stale_2_2', 'snake_stale_3_3'])
 
 REGISTRY = {
     'snake': {
@@ -103,20 +103,21 @@ REGISTRY = {
         'harnesses': {'quick': _SNAKE_QUICK, 'thorough': _SNAKE_THOROUGH},
         'bound': {
             'quick': 'find_middle_snake on the real code, one harness per concrete box size (n,m), all 1<=n,m<=3 (9 harnesses) plus 2x2 with '
-                     'V made for a larger outer box (max_d(n+3,m+2)), once zeroed and once with arbitrary stale cell contents; '
+                     'V made for a larger outer box (max_d(n+3,m+2)); '
                      'contents symbolic over a 3-symbol alphabet; box at offsets 1 (old) / 2 (new) inside slices of length n+2 / m+3 '
                      'with symbolic padding; vf, vb = V::new(max_d(n,m)); deadline None.  Clauses: (i) no panic/overflow/out-of-bounds, '
                      '(ii) Some((x,y)) inside the closed box, (iii) first and last pair differ => split is not a corner, '
-                     '(iv) deadline None => Some, (vi) len/offset of vf, vb unchanged.  NOT covered: (v) optimal split (thorough tier), '
+                     '(iv) deadline None => Some, (vi) len/offset of vf, vb unchanged.  NOT covered: (v) optimal split and arbitrary stale '
+                     'vf/vb contents (thorough tier), '
                      'expired-deadline clause (Instant cannot be built symbolically), boxes larger than 3x3, alphabets > 3.',
             'thorough': 'find_middle_snake on the real code, one harness per concrete box size: clauses (i)-(vi) incl. (v) '
                         'lcs(box) == lcs(left) + lcs(right) against an in-harness DP for all 1<=n,m<=4 (16 harnesses); clauses (i)-(iv),(vi) '
                         'for 5x5, 2x5, 5x2; V made for a larger outer box (max_d(n+3,m+2)) for 3x2; the same with arbitrary stale '
-                        'cell contents in vf/vb for 3x3.  Contents symbolic over 3 symbols, box at non-zero offsets, deadline None.  '
+                        'cell contents in vf/vb for 2x2, 3x3.  Contents symbolic over 3 symbols, box at non-zero offsets, deadline None.  '
                         'NOT covered: expired-deadline clause, larger boxes, alphabets > 3.',
         },
-        'harness_timeout_s': {'quick': 200, 'thorough': 1500},
-        'wall_timeout_s': {'quick': 330, 'thorough': 5400},
+        'harness_timeout_s': {'quick': 240, 'thorough': 1500},
+        'wall_timeout_s': {'quick': 400, 'thorough': 5400},
         'witness_layout': 'kani::any() order: old[0..n+2) then new[0..m+3) (u8 symbols); the box is old[1..1+n) x new[2..2+m); '
                           'stale harnesses: then the cells of vf.v, then of vb.v',
     },
@@ -319,7 +320,7 @@ class _Runner:
         return self
 
 
-_CHECK_RE = re.compile(r'^Check \d+: (?P<id>\S+)\s*\n\s*- Status: (?P<st>\w+)\s*\n\s*- Description: "(?P<desc>.*)"\s*\n\s*- Location: (?P<loc>.*)$', re.M)
+_CHECK_RE = re.compile(r'^Check \d+: (?P<id>[^\n]+?)[ \t]*\n\s*- Status: (?P<st>\w+)\s*\n\s*- Description: "(?P<desc>.*)"\s*\n\s*- Location: (?P<loc>.*)$', re.M)
 
 
 def _parse_harness(text, timeout_s):
